@@ -60,18 +60,48 @@ Definition prompt_ok (waits : list (nid * Z)) (t : wtimes) : bool :=
 
 (* a single node whose wait was interrupted: the run ends with the context's error and the failed
    attempt before that wait is the last callback (no further attempt, no fallback, no post) *)
+(* a batch whose context was cancelled: an item whose attempts all failed, fewer than the budget,
+   and for which no fallback ran was cut short by the context (stop mode never interrupts an
+   item's retries) - its slot is an error matching the context's error *)
+Definition find_bpost (tr : list event) : option (list val * list val) :=
+  match find (fun e => match ev_call e with CBPost _ _ _ _ => true | _ => false end) tr with
+  | Some e => match ev_call e with CBPost _ _ items results => Some (items, results) | _ => None end
+  | None => None
+  end.
+Definition ctx_slot_b (v : val) : bool :=
+  match v with VRes _ (Some e) => eclass_eqb (class_of e) KCtx | _ => false end.
+Definition batch_cut_ok (c : ucfg) (tr : list event) : bool :=
+  match find_bpost tr with
+  | None => true
+  | Some (items, results) =>
+      forallb (fun i =>
+                 let t := item_key (nth i items VNil) in
+                 let execs := filter (fun e => match ev_call e with CExec _ a => Nat.eqb (item_key a) t | _ => false end) tr in
+                 let fbs := filter (fun e => match ev_call e with CFallback _ a _ => Nat.eqb (item_key a) t | _ => false end) tr in
+                 match rev execs with
+                 | last :: _ =>
+                     if ev_failed last && Nat.ltb (length execs) (fst (retry_of c)) && Nat.eqb (length fbs) 0
+                     then ctx_slot_b (nth i results VNil) else true
+                 | [] => true
+                 end)
+              (seq 0 (length items))
+  end.
+
+(* a single node whose wait was interrupted: the run ends with the context's error and the failed
+   attempt before that wait is the last callback (no further attempt, no fallback, no post) *)
 Definition interrupted_node_ok (es : escen) (r : erun) (t : wtimes) : bool :=
   match wt_cancel t with
   | None => true
   | Some _ =>
+      let '(tr, oc, _) := r in
       match table_of (es_nodes es) (es_root es) with
       | Some (NUser _) =>
-          let '(tr, oc, _) := r in
           match snd oc with Some e => eclass_eqb (class_of e) KCtx | None => false end
           && match rev (visible tr) with
              | ev :: _ => is_exec (ev_call ev) && ev_failed ev
              | [] => false
              end
+      | Some (NBatch c _ _) => batch_cut_ok c tr
       | _ => true
       end
   end.
